@@ -11,6 +11,14 @@ use crate::common::frame::{FrameHeader, FrameWriter, FramedReader, TxId};
 use crate::error::*;
 use crate::DecodeLevel;
 
+/// The instant at which `duration` will have elapsed. A duration too large to be represented as an
+/// instant (e.g. `Duration::MAX` used as "no timeout") must not panic: it simply never elapses.
+fn deadline_after(duration: Duration) -> Instant {
+    let now = Instant::now();
+    now.checked_add(duration)
+        .unwrap_or_else(|| now + Duration::from_secs(86400 * 365 * 30))
+}
+
 /**
 * We execute requests in a session until one of the following occurs
 */
@@ -275,7 +283,7 @@ impl ClientLoop {
 
         io.write(bytes, self.decode.physical).await?;
 
-        let deadline = Instant::now() + request.timeout;
+        let deadline = deadline_after(request.timeout);
 
         // loop until we get a response with the correct tx id or we timeout
         let response = loop {
@@ -355,7 +363,7 @@ impl ClientLoop {
         &mut self,
         duration: Duration,
     ) -> Result<(), StateChange> {
-        let deadline = Instant::now() + duration;
+        let deadline = deadline_after(duration);
         tokio::select! {
             _ = tokio::time::sleep_until(deadline) => {
                 // Timeout occurred
